@@ -1256,6 +1256,33 @@ impl FatVolume {
         Ok(())
     }
 
+    /// Marks every cluster in the chain starting at the given cluster as free
+    pub(crate) fn free_cluster_chain<D>(
+        &mut self,
+        block_cache: &mut BlockCache<D>,
+        cluster: ClusterId,
+    ) -> Result<(), Error<D::Error>>
+    where
+        D: BlockDevice,
+    {
+        if cluster.0 < RESERVED_ENTRIES || cluster.0 >= self.cluster_count + RESERVED_ENTRIES {
+            // nothing was ever allocated (e.g. a zero-length file)
+            return Ok(());
+        }
+        // free everything after the first cluster...
+        self.truncate_cluster_chain(block_cache, cluster)?;
+        // ...and then the first cluster itself
+        self.update_fat(block_cache, cluster, ClusterId::EMPTY)?;
+        if let Some(ref mut number_free_cluster) = self.free_clusters_count {
+            *number_free_cluster = number_free_cluster.saturating_add(1);
+        };
+        match self.next_free_cluster {
+            Some(next_free_cluster) if next_free_cluster.0 <= cluster.0 => {}
+            _ => self.next_free_cluster = Some(cluster),
+        }
+        Ok(())
+    }
+
     /// Writes a Directory Entry to the disk
     pub(crate) fn write_entry_to_disk<D>(
         &self,
